@@ -53,7 +53,7 @@ where
     T: Into<Cow<'a, str>>,
 {
     let s = s.into();
-    match s.find(char::is_uppercase) {
+    match s.find(|c: char| !c.to_lowercase().eq(std::iter::once(c))) {
         None => Ok(s),
         Some(pos) => {
             let mut res = String::from(&s[..pos]);
